@@ -269,6 +269,19 @@ def gen_world(rng, cfg, *, nroots=1, hostile=True, links=True, max_files=24, fam
                     w.add_file(b2s(q), {"fam": 900 + len(extra), "len": ln, "flips": []},
                                mt=T0_NS - rng.randint(1, 10**6) * 10**9)
                     extra.append(b2s(q))
+    if hostile and regular and rng.random() < 0.25:
+        # sibling DIRECTORIES whose names differ only in bytes that are not UTF-8 (and the replacement character
+        # itself), each holding a copy under the same file name: any lossy rendering of the parent makes them one
+        tgt = rng.choice(regular)
+        parent = rng.choice(dirs)
+        src = [e for e in w.entries if e["t"] == "f" and e["p"] == tgt][0]
+        sib = [parent + b"/u\xff", parent + b"/u\xfe", parent + b"/u\xef\xbf\xbd"]
+        if not any(c in names.used for c in sib):
+            for c in sib[:rng.choice([2, 3])]:
+                names.used.add(c); names.used.add(c + b"/x")
+                w.add_dir(b2s(c))
+                w.add_file(b2s(c + b"/x"), dict(src["c"]), mt=T0_NS - rng.randint(1, 10**6) * 10**9)
+                regular.append(b2s(c + b"/x"))
     if links and regular:
         # wide worlds: many links to few inodes (replica counting over long runs of one inode)
         for _ in range(rng.choice([12, 25, 40]) if wide else rng.choice([0, 0, 1, 2])):
